@@ -30,7 +30,9 @@ const c03HeaderLimit = 800 * time.Millisecond
 // tlsboth: TLS listener and https upstream - neither end of the tunnel is a plain TCP connection, so the copy
 // goes through the buffered path and not through splice / ReadFrom
 // httpcl / httpte: the upstream proxy's 200 carries Content-Length: 5 / Transfer-Encoding: chunked
-var c03Routes = []string{"direct", "http", "https", "socks5", "connectfunc", "upgrade", "tlsboth", "httpcl", "httpte"}
+// mitmupgrade: an Upgrade request read from an intercepted (MITM) session, the 101 relayed inside it: the tunnel runs between
+// the two TLS sessions
+var c03Routes = []string{"direct", "http", "https", "socks5", "connectfunc", "upgrade", "tlsboth", "httpcl", "httpte", "mitmupgrade"}
 
 type nameTable struct {
 	mu sync.Mutex
@@ -356,6 +358,8 @@ func newC03Env(seed int64) *c03Env {
 		case "tlsboth":
 			fc.Upstream = "https://" + addrB
 			fc.TLS = true
+		case "mitmupgrade":
+			fc.MITM = true
 		case "socks5":
 			fc.Upstream = "socks5://" + addrC
 		case "connectfunc":
@@ -467,16 +471,22 @@ func (env *c03Env) scenario(idx int, route string, c *c03Case) map[string]any {
 		tBlock = func(i int) []byte { return payload(env.seed, fmt.Sprintf("tp-%d-%d", idx, i), 1<<20+8191*i+5) }
 	}
 	// target
-	tln, err := net.Listen("tcp", "127.0.0.1:0")
-	if err != nil {
-		fatal("listen: %v", err)
-	}
-	defer tln.Close()
+	isUpgrade := route == "upgrade" || route == "mitmupgrade"
 	port := "443"
 	if route == "upgrade" {
 		port = "80"
 	}
 	tname := fmt.Sprintf("t%d-%s.test:%s", idx, route, port)
+	tln, err := net.Listen("tcp", "127.0.0.1:0")
+	if err != nil {
+		fatal("listen: %v", err)
+	}
+	if route == "mitmupgrade" {
+		// the target speaks TLS: the proxy's transport verifies it like any https origin
+		ca, _ := harnessCAs()
+		tln = tls.NewListener(tln, &tls.Config{Certificates: []tls.Certificate{ca.leaf([]string{strings.TrimSuffix(tname, ":443")}, "")}})
+	}
+	defer tln.Close()
 	env.names.set(tname, tln.Addr().String())
 	sched := append([]string{}, c.Sched...)
 	// which schedule steps are moved to "as early as possible"
@@ -519,7 +529,7 @@ func (env *c03Env) scenario(idx int, route string, c *c03Case) map[string]any {
 			return
 		}
 		br := bufio.NewReader(tc)
-		if route == "upgrade" {
+		if isUpgrade {
 			req, err := readWireRequest(br)
 			if err != nil || !hasToken(req.get("Connection"), "upgrade") {
 				tc.Close()
@@ -558,7 +568,28 @@ func (env *c03Env) scenario(idx int, route string, c *c03Case) map[string]any {
 		cl = tcl
 	}
 	var head []byte
-	if route == "upgrade" {
+	if route == "mitmupgrade" {
+		// the session is opened and intercepted first; the Upgrade request travels inside it
+		host := strings.TrimSuffix(tname, ":443")
+		cl.Write([]byte("CONNECT " + tname + " HTTP/1.1\r\nHost: " + tname + "\r\n\r\n"))
+		cl.SetReadDeadline(time.Now().Add(10 * time.Second))
+		r0, err := readWireResponseHeadOnly(bufio.NewReaderSize(cl, 1)) // (nothing follows the 200 before the client's hello)
+		cl.SetReadDeadline(time.Time{})
+		if err != nil || r0.Status != 200 {
+			fail(fmt.Sprintf("CONNECT for the intercepted session: %v", err))
+			return res
+		}
+		_, mitmCA := harnessCAs()
+		tcl := tls.Client(cl, tlsClientCfg(mitmCA, host))
+		cl.SetDeadline(time.Now().Add(5 * time.Second))
+		if err := tcl.Handshake(); err != nil {
+			fail("TLS handshake inside the intercepted session: " + err.Error())
+			return res
+		}
+		cl.SetDeadline(time.Time{})
+		cl = tcl
+		head = []byte("GET /ws HTTP/1.1\r\nHost: " + host + "\r\nConnection: Upgrade\r\nUpgrade: websocket\r\n\r\n")
+	} else if route == "upgrade" {
 		head = []byte("GET http://" + strings.TrimSuffix(tname, ":80") + "/ws HTTP/1.1\r\nHost: " + strings.TrimSuffix(tname, ":80") + "\r\nConnection: Upgrade\r\nUpgrade: websocket\r\n\r\n")
 	} else {
 		head = []byte("CONNECT " + tname + " HTTP/1.1\r\nHost: " + tname + "\r\n\r\n")
@@ -579,7 +610,7 @@ func (env *c03Env) scenario(idx int, route string, c *c03Case) map[string]any {
 		return res
 	}
 	wantSt := 200
-	if route == "upgrade" {
+	if isUpgrade {
 		wantSt = 101
 	}
 	if resp.Status != wantSt {
@@ -628,7 +659,7 @@ func (env *c03Env) scenario(idx int, route string, c *c03Case) map[string]any {
 			waitEOF(tRd, "target")
 		case "ts":
 			lg.add("ts")
-			tc.c.(*net.TCPConn).CloseWrite()
+			tc.c.(interface{ CloseWrite() error }).CloseWrite()
 			tShut = true
 			waitEOF(cRd, "client")
 		}
